@@ -350,6 +350,41 @@ def E1_lmpdat_writer_reader(repo, clause):
             obs.append(Ob("E1", clause, r, n_, ne and bool(cmps),
                           "each tilt factor is tested with `!= 0` (negative tilts are tilts too): %s" % [ast.unparse(c_) for c_ in cmps],
                           slot="tilt-decision-operator", positive=bool(cmps) and all(len(c_.ops) == 1 for c_ in cmps)))
+            # ... and the three tests are combined so that ANY non-zero tilt selects the triclinic matrix (truth table over the 8 zero/non-zero patterns)
+            import itertools as _it
+
+            def _tv(e, nz):
+                if isinstance(e, ast.BoolOp):
+                    vals = [_tv(v, nz) for v in e.values]
+                    return all(vals) if isinstance(e.op, ast.And) else any(vals)
+                if isinstance(e, ast.UnaryOp) and isinstance(e.op, ast.Not):
+                    return not _tv(e.operand, nz)
+                if isinstance(e, ast.Compare) and len(e.ops) == 1:
+                    ec = eq_const(e)
+                    if ec is not None and isinstance(ec[0], ast.Name) and ec[0].id in names and ec[1] == 0:
+                        return (not nz[ec[0].id]) if ec[2] else nz[ec[0].id]
+                if isinstance(e, ast.Call) and call_name(e) in ("any", "all") and e.args and isinstance(e.args[0], (ast.List, ast.Tuple)):
+                    vals = [_tv(v, nz) for v in e.args[0].elts]
+                    return any(vals) if call_name(e) == "any" else all(vals)
+                raise ValueError(ast.unparse(e))
+            try:
+                wrong = []
+                # which branch builds the tilted matrix (the one that mentions the tilt names)?
+                tri_in_body = any(isinstance(x, ast.Name) and x.id in names for b_ in n_.body for x in ast.walk(b_))
+                tri_in_else = any(isinstance(x, ast.Name) and x.id in names for b_ in n_.orelse for x in ast.walk(b_))
+                if tri_in_body == tri_in_else:
+                    raise ValueError("cannot tell which branch is the triclinic one")
+                for bits in _it.product((False, True), repeat=3):
+                    nzm = dict(zip(names, bits))
+                    if (_tv(n_.test, nzm) == tri_in_body) != any(bits):
+                        wrong.append(nzm)
+                obs.append(Ob("E1", clause, r, n_, not wrong,
+                              "triclinic decision over the 8 zero/non-zero patterns of (%s): %s" % (", ".join(names), "tilted exactly when any factor is non-zero" if not wrong else
+                                                                                                 "WRONG for %d patterns, e.g. %s is read back as %s" % (len(wrong), {k: ("non-zero" if v else "0") for k, v in wrong[0].items()},
+                                                                                                                                                      "orthorhombic (the tilt is dropped)" if any(wrong[0].values()) else "triclinic")),
+                              slot="tilt-decision-table", positive=True))
+            except ValueError:
+                pass
     # lo/hi: writer zip([0,0,0], np.diag(cell)); reader hi - lo
     def _float_sub(e):
         return e.args[0] if isinstance(e, ast.Call) and call_name(e) == "float" and e.args and isinstance(e.args[0], ast.Subscript) else None
@@ -414,11 +449,91 @@ def E_dispatch(repo, clause):
                     for n in fn.own_nodes())
         obs.append(Ob("E5", clause, fn, fn.node, strip, "type implied by the file extension drops the leading dot", construct="filetype[1:]", slot="%s:ext" % which,
                       undecided=not any(isinstance(c_, ast.Call) and call_name(c_) == "splitext" for c_ in ast.walk(fn.node))))
+    # the two dispatchers resolve (file object | path, explicit type | extension) by the SAME prologue: sibling agreement, and each
+    # use_or_open call receives (handle, path) in the order of the helper's parameters
+    pro = {}
+    for which in routines:
+        fn = repo.fn("Atoms.%s" % which)
+        body = [st for st in fn.node.body if not (isinstance(st, ast.Expr) and isinstance(st.value, ast.Constant))]
+        cut = next((i for i, st in enumerate(body) if isinstance(st, ast.If) and any(eq_const(x) is not None and isinstance(eq_const(x)[1], str) and eq_const(x)[1] in routines[which]
+                                                                                       for x in ast.walk(st.test) if isinstance(x, ast.Compare))), None)
+        if cut is None:
+            continue
+        pro[which] = (fn, body[:cut])
+    if len(pro) == 2:
+        (fl, bl), (fs, bs) = pro["load"], pro["save"]
+        def alpha(fn_, stmts):
+            """dump with parameters and assigned locals renamed in order of first occurrence (alpha-equivalence)"""
+            import copy as _copy
+            names = {}
+            for p_ in fn_.params:
+                names.setdefault(p_, "v%d" % len(names))
+            mod = ast.Module(body=[_copy.deepcopy(x) for x in stmts], type_ignores=[])
+            for x in ast.walk(mod):
+                if isinstance(x, ast.Name) and isinstance(x.ctx, ast.Store):
+                    names.setdefault(x.id, "v%d" % len(names))
+            for x in ast.walk(mod):
+                if isinstance(x, ast.Name) and x.id in names:
+                    x.id = names[x.id]
+            return [ast.dump(x) for x in mod.body]
+        from verif_sa.core import skeleton as _skel
+        dl_, ds_ = alpha(fl, bl), alpha(fs, bs)
+        same = dl_ == ds_
+        same_shape = [_skel(x) for x in bl] == [_skel(x) for x in bs]
+        first = next((i for i, (a_, b_) in enumerate(zip(dl_, ds_)) if a_ != b_), min(len(dl_), len(ds_)))
+        obs.append(Ob("E5", clause, fs, bs[first] if first < len(bs) else fs.node, same,
+                      "Atoms.load and Atoms.save resolve their file argument and file type by %s" % (
+                          "the same statements (%d)" % len(bl) if same else "DIFFERENT statements: statement #%d is `%s` in load but `%s` in save - one of the two dispatchers is wrong" % (
+                              first + 1, ast.unparse(bl[first]).splitlines()[0][:50] if first < len(bl) else "-", ast.unparse(bs[first]).splitlines()[0][:50] if first < len(bs) else "-")),
+                      slot="prologue-siblings", positive=not same and same_shape, undecided=not same and not same_shape))
+        # the prologue itself: a file object needs an explicit type; a path without type takes its extension
+        for which, (fn, bd) in pro.items():
+            top = [st for st in bd if isinstance(st, ast.If) and any(isinstance(x, ast.Call) and call_name(x) == "isinstance" for x in ast.walk(st.test))]
+            if len(top) != 1:
+                continue
+            t0 = top[0]
+            isi = t0.test
+            pos = True
+            while isinstance(isi, ast.UnaryOp) and isinstance(isi.op, ast.Not):
+                isi, pos = isi.operand, not pos
+            args_ok = isinstance(isi, ast.Call) and len(isi.args) == 2 and isinstance(isi.args[0], ast.Name) and isi.args[0].id == fn.params[1]
+            fd_branch = t0.body if pos else t0.orelse
+            path_branch = t0.orelse if pos else t0.body
+            fd_names = [x.targets[0].id for x in fd_branch if isinstance(x, ast.Assign) and isinstance(x.targets[0], ast.Name) and isinstance(x.value, ast.Name) and x.value.id == fn.params[1]]
+            path_names = [x.targets[0].id for x in path_branch if isinstance(x, ast.Assign) and isinstance(x.targets[0], ast.Name) and isinstance(x.value, ast.Name) and x.value.id == fn.params[1]]
+            FD, PATH = (fd_names[0] if fd_names else None), (path_names[0] if path_names else None)
+            fd_st = FD is not None
+            raise_in_fd = [x for x in ast.walk(ast.Module(body=fd_branch, type_ignores=[])) if isinstance(x, ast.Raise)]
+            raise_ok = False
+            for x in fd_branch:
+                if isinstance(x, ast.If) and any(isinstance(y, ast.Raise) for y in x.body) and is_none_test_any_e(x.test) == "is":
+                    raise_ok = True
+            ext_ok = False
+            for x in path_branch:
+                if isinstance(x, ast.If) and is_none_test_any_e(x.test) == "is" and any(isinstance(y, ast.Call) and call_name(y) == "splitext" for y in ast.walk(x)):
+                    ext_ok = True
+            ok_ = args_ok and fd_st and raise_ok and ext_ok
+            obs.append(Ob("E5", clause, fn, t0, ok_,
+                          "Atoms.%s: isinstance(%s, file) -> handle, explicit type required (raise when None)=%s; otherwise path, extension used when the type is None=%s; isinstance arguments in order=%s" % (
+                              which, fn.params[1], fd_st and raise_ok, ext_ok, args_ok), slot="%s:prologue" % which,
+                          positive=isinstance(isi, ast.Call) and len(isi.args) == 2 and not args_ok and isinstance(isi.args[1], ast.Name) and isi.args[1].id == fn.params[1],
+                          undecided=not (isinstance(isi, ast.Call) and len(isi.args) == 2 and not args_ok and isinstance(isi.args[1], ast.Name) and isi.args[1].id == fn.params[1])))
+            for c in [c for c in calls_in(fn) if call_name(c) == "use_or_open"]:
+                a_ok = FD is not None and PATH is not None and len(c.args) >= 2 and isinstance(c.args[0], ast.Name) and c.args[0].id == FD and isinstance(c.args[1], ast.Name) and c.args[1].id == PATH
+                swapped = FD is not None and PATH is not None and len(c.args) >= 2 and isinstance(c.args[0], ast.Name) and c.args[0].id == PATH and isinstance(c.args[1], ast.Name) and c.args[1].id == FD
+                obs.append(Ob("E5", clause, fn, c, a_ok, "use_or_open receives %s" % ("(handle, path)" if a_ok else ("(path, handle): SWAPPED - the path is used as if it were an open file" if swapped else ast.unparse(c)[:50])),
+                              slot="%s:use_or_open-args" % which, positive=swapped, undecided=not a_ok and not swapped))
     uo = repo.fn("use_or_open")
     ok = any(isinstance(c, ast.Call) and call_name(c) == "open" and len(c.args) >= 2 and isinstance(c.args[1], ast.Name) and c.args[1].id == "mode"
              for c in ast.walk(uo.node))
     obs.append(Ob("E5", clause, uo, uo.node, ok, "use_or_open opens the path with the requested mode and otherwise yields the given handle", construct="def use_or_open", slot="use_or_open"))
     return obs
+
+
+def is_none_test_any_e(x):
+    if isinstance(x, ast.Compare) and len(x.ops) == 1 and isinstance(x.comparators[0], ast.Constant) and x.comparators[0].value is None:
+        return "isnot" if isinstance(x.ops[0], ast.IsNot) else ("is" if isinstance(x.ops[0], ast.Is) else None)
+    return None
 
 
 # ---- E2: CIF ---------------------------------------------------------------------------------------
@@ -486,6 +601,27 @@ def E2_cif_tags(repo, clause):
             obs.append(Ob("E2", clause, cab, c_, ok_,
                           "%s = angle between lattice rows %s: dot product of rows %s normalised by the norms of rows %s" % (("alpha", "beta", "gamma")[k_], want_pairs[k_], di, ni),
                           slot="cell-angle:%s" % ("alpha", "beta", "gamma")[k_], positive=len(di) == 2 and len(ni) == 2))
+            # ... and the cosine is the QUOTIENT dot / (norm * norm): exponent +1 for the dot product, -1 for each norm
+            def _powers(x, sign, out):
+                if isinstance(x, ast.BinOp) and isinstance(x.op, ast.Mult):
+                    _powers(x.left, sign, out)
+                    _powers(x.right, sign, out)
+                elif isinstance(x, ast.BinOp) and isinstance(x.op, ast.Div):
+                    _powers(x.left, sign, out)
+                    _powers(x.right, -sign, out)
+                elif isinstance(x, ast.Call) and call_name(x) in ("dot", "norm"):
+                    out.append((call_name(x), sign))
+                elif isinstance(x, ast.Call) and call_name(x) == "sqrt" and x.args:
+                    out.append(("sqrt", sign))
+                else:
+                    out.append(("?", sign))
+            pw = []
+            _powers(expand(cab, e_), 1, pw)
+            form_ok = sorted(pw) == [("dot", 1), ("norm", -1), ("norm", -1)]
+            recognised = all(k__ in ("dot", "norm") for k__, _ in pw) and len(pw) == 3
+            obs.append(Ob("E2", clause, cab, c_, form_ok,
+                          "cos(%s) = dot / (norm * norm): factors and exponents found %s" % (("alpha", "beta", "gamma")[k_], sorted(pw)),
+                          slot="cell-angle-quotient:%s" % ("alpha", "beta", "gamma")[k_], positive=recognised and not form_ok, undecided=not recognised))
     # s.u. stripping: every float conversion of block values goes through tofloat
     tf = repo.nested(r, "tofloat")
     strips = any(isinstance(c, ast.Call) and call_name(c) == "sub" and c.args and isinstance(c.args[0], ast.Constant) and "\\(" in c.args[0].value
@@ -575,6 +711,31 @@ def E2_cif_tags(repo, clause):
         obs.append(Ob("E2", clause, w, tblock, both,
                       "torsion loop is written when there are dihedrals OR impropers (guard: %s)" % gtxt[:70], slot="torsion-guard",
                       positive=("self.dihedrals" in gtxt) != ("self.impropers" in gtxt)))
+    # every size test that decides whether a loop block is written is a NON-EMPTINESS test of a term array
+    n_sz = 0
+    for n_ in w.own_nodes():
+        if not isinstance(n_, ast.If):
+            continue
+        for c_ in [x for x in ast.walk(n_.test) if isinstance(x, ast.Compare) and len(x.ops) == 1]:
+            sides = [c_.left, c_.comparators[0]]
+            lens = [x for x in sides if isinstance(x, ast.Call) and call_name(x) == "len" and x.args and is_self_attr(x.args[0]) and kind_of(x.args[0].attr) is not None]
+            if not lens:
+                continue
+            n_sz += 1
+            k0 = [const_value(x) for x in sides if x is not lens[0]][0]
+            op_ = type(c_.ops[0])
+            left_is_len = c_.left is lens[0]
+            if not left_is_len:
+                op_ = {ast.Gt: ast.Lt, ast.Lt: ast.Gt, ast.GtE: ast.LtE, ast.LtE: ast.GtE}.get(op_, op_)
+            nonempty = (k0 == 0 and op_ in (ast.Gt, ast.NotEq)) or (k0 == 1 and op_ is ast.GtE)
+            obs.append(Ob("E2", clause, w, c_, nonempty,
+                          "block guard `%s` %s" % (ast.unparse(c_), "tests that self.%s is non-empty" % lens[0].args[0].attr if nonempty else
+                                                   "is NOT a non-emptiness test of self.%s: the loop is %s" % (lens[0].args[0].attr,
+                                                                                                           "never written although terms exist" if (k0 == 0 and op_ in (ast.Lt,)) else "written / skipped for the wrong structures")),
+                          slot="block-guard:%s" % lens[0].args[0].attr,
+                          positive=not nonempty and not (isinstance(k0, (int, float)) and ((op_ is ast.GtE and k0 <= 0) or (op_ is ast.Gt and k0 < 0))),
+                          undecided=not nonempty and (isinstance(k0, (int, float)) and ((op_ is ast.GtE and k0 <= 0) or (op_ is ast.Gt and k0 < 0)))))
+    floor("E2", "loop-block size tests in the CIF writer", n_sz, 4)
     return obs
 
 
@@ -989,6 +1150,33 @@ def E_retype(repo, clause):
     srt = [c for c in calls_in(fn) if isinstance(c.func, ast.Attribute) and c.func.attr == "sort" and isinstance(c.func.value, ast.Name) and c.func.value.id == U]
     ok5 = len(srt) == 2 and all(fn.cfg.dominates(fn.stmt_of(s), stores["atom_type_labels"]) for s in srt)
     obs.append(Ob("E9", clause, fn, srt[0] if srt else fn.node, ok5, "the list is sorted (by name, then stably by element) before any table is derived from it", slot="sorted-before-use"))
+    # assign_pair_coeffs: one coefficient line per type label; labels are replaced by element-derived UFF keys only on request
+    pc = repo.fn("assign_pair_coeffs")
+    A_ = pc.params[0]
+    st = {}
+    for n in pc.own_nodes():
+        if isinstance(n, ast.Assign) and isinstance(n.targets[0], ast.Attribute) and isinstance(n.targets[0].value, ast.Name) and n.targets[0].value.id == A_:
+            st[n.targets[0].attr] = n
+    co = st.get("pair_coeffs")
+    ok6 = co is not None and isinstance(co.value, ast.ListComp) and not co.value.generators[0].ifs and ast.unparse(co.value.generators[0].iter) == "%s.atom_type_labels" % A_ \
+        and pc.cfg.postdominates(co, pc.node.body[0])
+    obs.append(Ob("E9", clause, pc, co if co is not None else pc.node, ok6,
+                  "pair coefficients: %s" % ("one line per atom type label, in type order, on every path" if ok6 else (
+                      "assign_pair_coeffs NEVER stores atoms.pair_coeffs: the structure keeps a stale or empty pair table" if co is None else "not recognisably one line per type label")),
+                  construct=None if co is not None else "atoms.pair_coeffs = [...]", slot="pair-coeffs-store", positive=co is None, undecided=co is not None and not ok6))
+    lb = st.get("atom_type_labels")
+    if lb is not None and len(pc.params) > 1:
+        flag = pc.params[1]
+        gs = [(t_, pol) for t_, pol, k_ in norm_guards(pc, lb)]
+        governed = [pol for t_, pol in gs if isinstance(t_, ast.Name) and t_.id == flag]
+        dflt = pc.param_defaults().get(flag)
+        ok7 = governed == [True] and dflt is not None and const_value(dflt) is False
+        obs.append(Ob("E9", clause, pc, lb, ok7,
+                      "type labels are overwritten by element-derived UFF keys %s" % (
+                          "only when `%s` is set (default False)" % flag if ok7 else (
+                              "when `%s` is NOT set - the labels assigned by the typing step are discarded by default" % flag if governed == [False] else (
+                                  "UNCONDITIONALLY or by default (flag default %s)" % (ast.unparse(dflt) if dflt is not None else "?")))),
+                      slot="pair-coeffs-labels", positive=not ok7 and (governed in ([False], []) or (dflt is not None and const_value(dflt) is True))))
     return obs
 
 
@@ -1123,6 +1311,47 @@ def E_extra_fields_order(repo, clause):
     idx = [c for c in calls_in(mf) if isinstance(c.func, ast.Attribute) and c.func.attr == "index"]
     ok = len(idx) == 1 and ast.unparse(idx[0].func.value) == mf.params[0]
     obs.append(Ob("E12", clause, mf, idx[0] if idx else mf.node, ok, "the other's columns are placed at the position of their label in the merged label list", slot="by-label"))
+    # _pad_fields: the new '.'-filled block has the requested height (the data's own height only when none is given) and the existing
+    # values are copied into its top-left corner whenever there are any
+    pf = repo.nested(fn, "_pad_fields")
+    if len(pf.params) >= 3:
+        D_, W_, H_ = pf.params[0], pf.params[1], pf.params[2]
+        hdef = [n for n in pf.own_nodes() if isinstance(n, ast.Assign) and isinstance(n.targets[0], ast.Name) and n.targets[0].id == H_]
+        for hd in hdef:
+            gs_ = [(t_, pol_) for t_, pol_, k_ in norm_guards(pf, hd)]
+            ok_h = len(gs_) == 1 and is_none_test_any_e(gs_[0][0]) in ("is", "isnot") and ((is_none_test_any_e(gs_[0][0]) == "is") == bool(gs_[0][1]))
+            inverted = len(gs_) == 1 and is_none_test_any_e(gs_[0][0]) in ("is", "isnot") and not ok_h
+            obs.append(Ob("E12", clause, pf, hd, ok_h,
+                          "_pad_fields takes the data's own height %s" % ("only when no height is given" if ok_h else (
+                              "when a height IS given (and keeps None otherwise): the padded block gets the wrong number of rows" if inverted else "under an unrecognised condition")),
+                          slot="pad-height-default", positive=inverted, undecided=not ok_h and not inverted))
+        copies = [n for n in pf.own_nodes() if isinstance(n, ast.Assign) and isinstance(n.targets[0], ast.Subscript) and isinstance(n.value, ast.Name) and n.value.id == D_]
+        if not copies:
+            obs.append(Ob("E12", clause, pf, pf.node, False, "_pad_fields NEVER copies the existing values into the padded block: every extra field the structure already had is replaced by '.'",
+                          construct="new_data[0:rows, 0:cols] = data", slot="pad-copy", positive=True))
+        for cp in copies:
+            gs_ = [(t_, pol_) for t_, pol_, k_ in norm_guards(pf, cp)]
+            bad_ = None
+            for t_, pol_ in gs_:
+                if isinstance(t_, ast.Compare) and len(t_.ops) == 1 and ".size" in ast.unparse(t_) or (isinstance(t_, ast.Compare) and "len(" in ast.unparse(t_)):
+                    k0 = const_value(t_.comparators[0])
+                    op_ = type(t_.ops[0])
+                    nonempty = (k0 == 0 and op_ in (ast.Gt, ast.NotEq)) or (k0 == 1 and op_ is ast.GtE)
+                    taut = k0 == 0 and op_ is ast.GtE
+                    if not ((nonempty and pol_) or taut or ((k0 == 0 and op_ in (ast.Eq, ast.LtE)) and not pol_)):
+                        bad_ = (t_, pol_)
+            sl = cp.targets[0].slice
+            corner = isinstance(sl, ast.Tuple) and len(sl.elts) == 2 and all(isinstance(x, ast.Slice) and (x.lower is None or const_value(x.lower) == 0) for x in sl.elts) and \
+                [ast.unparse(x.upper) if isinstance(x, ast.Slice) and x.upper is not None else None for x in sl.elts] == ["%s.shape[0]" % D_, "%s.shape[1]" % D_]
+            obs.append(Ob("E12", clause, pf, cp, bad_ is None and corner,
+                          "existing values are copied into the top-left corner [0:rows, 0:cols] of the padded block whenever there are any%s" % (
+                              "" if bad_ is None and corner else (" -- NOT when `%s` is %s: existing extra fields are lost" % (ast.unparse(bad_[0]), bad_[1]) if bad_ is not None else
+                                                                 " -- target region is `%s`, not [0:%s.shape[0], 0:%s.shape[1]]" % (ast.unparse(sl)[:50], D_, D_))),
+                          slot="pad-copy",
+                          positive=bad_ is not None or (isinstance(sl, ast.Tuple) and len(sl.elts) == 2 and all(isinstance(x, ast.Slice) for x in sl.elts) and
+                                                        all(x.upper is not None and ast.unparse(x.upper).startswith("%s.shape[" % D_) for x in sl.elts)),
+                          undecided=not (bad_ is not None or (isinstance(sl, ast.Tuple) and len(sl.elts) == 2 and all(isinstance(x, ast.Slice) for x in sl.elts) and
+                                                              all(x.upper is not None and ast.unparse(x.upper).startswith("%s.shape[" % D_) for x in sl.elts)))))
     # every non-empty result is the re-laid array: returning the other's array as it is keeps the other's column order
     for i, r in enumerate(sorted([n for n in mf.own_nodes() if isinstance(n, ast.Return) and n.value is not None], key=lambda n: n.lineno)):
         v = r.value
